@@ -237,6 +237,10 @@ def cfg_chain(tier, seed):
     chain2 = [{'shape': [2, 2], 'offset': [-2, 0]}, {'shape': [2, 2], 'offset': [2, 0]}, {'shape': [5, 1], 'offset': [0, 0]}, {'shape': [1, 1], 'offset': [3, 0]}]
     out = [{'S': [3, 7], 'fields': [chain[i] for i in perm], 'T': [3, 7]} for perm in itertools.permutations(range(3))]
     out += [{'S': [7, 3], 'fields': [chain2[i] for i in perm], 'T': [7, 3]} for perm in list(itertools.permutations(range(4)))[::3]]
+    # a single sample that touches neither of two overlapping 3x3 fields but lies inside their joint bounding box: once those two are one
+    # group it belongs to it, and the group keeps both of its fields
+    chain3 = [{'shape': [1, 1], 'offset': [-2, 2]}, {'shape': [3, 3], 'offset': [-1, -1]}, {'shape': [3, 3], 'offset': [1, 1]}]
+    out += [{'S': [5, 5], 'fields': [chain3[i] for i in perm], 'T': [5, 5]} for perm in itertools.permutations(range(3))]
     return out, len(out), True
 
 
